@@ -16,6 +16,17 @@ mod verif_c19 {
         }
     }
 
+    // ---- ASSUMED: core::mem::swap exchanges the two values (std implements it with a chunked byte loop whose
+    // unwinding dominates the cost; this stub moves the values through ptr::read / ptr::write instead) -------------
+    fn swap_stub<T>(a: &mut T, b: &mut T) {
+        unsafe {
+            let ta = core::ptr::read(a);
+            let tb = core::ptr::read(b);
+            core::ptr::write(a, tb);
+            core::ptr::write(b, ta);
+        }
+    }
+
     // a symbolic leaf that is NOT a Representation (already resolved, alias or bad value)
     fn any_resolved_leaf() -> Yaml<'static> {
         let k: u8 = kani::any();
@@ -50,37 +61,49 @@ mod verif_c19 {
         }
     }
 
-    // resolving leaves an already-resolved node untouched (COMPLETE over the leaf shapes, full i64/bool/usize range)
-    #[kani::proof]
-    #[kani::unwind(20)]
-    fn c19_parse_representation_keeps_resolved() {
-        let mut n = any_resolved_leaf();
-        let before = clone_leaf(&n);
-        let ok = n.parse_representation();
-        assert!(ok, "parse_representation must report success on a resolved node");
-        assert!(same_leaf(&n, &before), "parse_representation changed an already-resolved node");
-    }
-
-    // the recursive resolver keeps resolved leaves and the sequences that hold them
-    #[kani::proof]
-    #[kani::unwind(20)]
-    fn c19_parse_representation_recursive_keeps_resolved() {
-        let a = any_resolved_leaf();
-        let ca = clone_leaf(&a);
-        let mut leaf = clone_leaf(&a);
-        assert!(leaf.parse_representation_recursive());
-        assert!(same_leaf(&leaf, &ca), "recursive resolution changed a resolved leaf");
-        let mut seq = Yaml::Sequence(vec![a]);
-        let ok = seq.parse_representation_recursive();
-        assert!(ok);
-        match &seq {
-            Yaml::Sequence(v) => {
-                assert!(v.len() == 1, "recursive resolution lost sequence items");
-                assert!(same_leaf(&v[0], &ca), "recursive resolution changed a sequence item");
+    // resolving leaves an already-resolved node untouched: one harness per leaf shape (a concrete variant lets
+    // CBMC prune the drop glue of the other variants), full i64 / bool / usize range inside the shape
+    macro_rules! keeps_resolved {
+        ($name:ident, $rname:ident, $mk:expr) => {
+            #[kani::proof]
+            #[kani::unwind(12)]
+            fn $name() {
+                let mut n: Yaml<'static> = $mk;
+                let before = clone_leaf(&n);
+                let ok = n.parse_representation();
+                assert!(ok, "parse_representation must report success on a resolved node");
+                assert!(same_leaf(&n, &before), "parse_representation changed an already-resolved node");
+                core::mem::forget(n);
             }
-            _ => panic!("recursive resolution destroyed a sequence"),
-        }
+            #[kani::proof]
+            #[kani::unwind(12)]
+            fn $rname() {
+                let a: Yaml<'static> = $mk;
+                let ca = clone_leaf(&a);
+                let mut leaf = clone_leaf(&a);
+                assert!(leaf.parse_representation_recursive());
+                assert!(same_leaf(&leaf, &ca), "recursive resolution changed a resolved leaf");
+                let mut seq = Yaml::Sequence(vec![a]);
+                let ok = seq.parse_representation_recursive();
+                assert!(ok);
+                match &seq {
+                    Yaml::Sequence(v) => {
+                        assert!(v.len() == 1, "recursive resolution lost sequence items");
+                        assert!(same_leaf(&v[0], &ca), "recursive resolution changed a sequence item");
+                    }
+                    _ => panic!("recursive resolution destroyed a sequence"),
+                }
+                core::mem::forget(seq);
+                core::mem::forget(leaf);
+            }
+        };
     }
+    keeps_resolved!(c19_keeps_resolved_null, c19_recursive_keeps_null, Yaml::Value(Scalar::Null));
+    keeps_resolved!(c19_keeps_resolved_bool, c19_recursive_keeps_bool, Yaml::Value(Scalar::Boolean(kani::any())));
+    keeps_resolved!(c19_keeps_resolved_int, c19_recursive_keeps_int, Yaml::Value(Scalar::Integer(kani::any())));
+    keeps_resolved!(c19_keeps_resolved_str, c19_recursive_keeps_str, Yaml::Value(Scalar::String(Cow::Borrowed("ab"))));
+    keeps_resolved!(c19_keeps_resolved_alias, c19_recursive_keeps_alias, Yaml::Alias(kani::any()));
+    keeps_resolved!(c19_keeps_resolved_bad, c19_recursive_keeps_bad, Yaml::BadValue);
 
     // deferred resolution == eager resolution (symbolic text over a small alphabet, all styles / a few tags)
     fn deferred_vs_eager(text: &'static str, style: ScalarStyle, tag: Option<Tag>) {
@@ -102,6 +125,7 @@ mod verif_c19 {
     #[kani::proof]
     #[kani::unwind(20)]
     #[kani::stub(<f64 as core::str::FromStr>::from_str, f64_from_str_stub)]
+    #[kani::stub(core::mem::swap, swap_stub)]
     fn c19_deferred_equals_eager_untagged() {
         let bytes: [u8; 2] = kani::any();
         kani::assume(in_small_alphabet(bytes[0]) && in_small_alphabet(bytes[1]));
@@ -112,6 +136,7 @@ mod verif_c19 {
     #[kani::proof]
     #[kani::unwind(20)]
     #[kani::stub(<f64 as core::str::FromStr>::from_str, f64_from_str_stub)]
+    #[kani::stub(core::mem::swap, swap_stub)]
     fn c19_deferred_equals_eager_tagged() {
         let bytes: [u8; 1] = kani::any();
         kani::assume(in_small_alphabet(bytes[0]));
@@ -153,49 +178,61 @@ mod verif_c19 {
         assert!(same, "Scalar -> ScalarOwned -> Scalar changed the value");
     }
 
-    // from_bare_yaml of every node type keeps the data of a leaf
-    #[kani::proof]
-    #[kani::unwind(20)]
-    fn c19_from_bare_yaml_keeps_leaf_data_yaml() {
-        let a = any_resolved_leaf();
-        let ca = clone_leaf(&a);
-        let y = <Yaml as LoadableYamlNode>::from_bare_yaml(a);
-        assert!(same_leaf(&y, &ca));
-    }
-    #[kani::proof]
-    #[kani::unwind(20)]
-    fn c19_from_bare_yaml_keeps_leaf_data_marked() {
-        let a = any_resolved_leaf();
-        let ca = clone_leaf(&a);
-        let m = <MarkedYaml as LoadableYamlNode>::from_bare_yaml(a);
-        let ok_m = match (&m.data, &ca) {
-            (YamlData::Value(Scalar::Null), Yaml::Value(Scalar::Null)) => true,
-            (YamlData::Value(Scalar::Boolean(x)), Yaml::Value(Scalar::Boolean(y))) => x == y,
-            (YamlData::Value(Scalar::Integer(x)), Yaml::Value(Scalar::Integer(y))) => x == y,
-            (YamlData::Value(Scalar::String(x)), Yaml::Value(Scalar::String(y))) => x.as_bytes() == y.as_bytes(),
-            (YamlData::Alias(x), Yaml::Alias(y)) => x == y,
-            (YamlData::BadValue, Yaml::BadValue) => true,
-            _ => false,
+    // from_bare_yaml of every node type keeps the data of a leaf (one harness per leaf shape, see above)
+    macro_rules! from_bare {
+        ($ny:ident, $nm:ident, $no:ident, $mk:expr) => {
+            #[kani::proof]
+            #[kani::unwind(12)]
+            fn $ny() {
+                let a: Yaml<'static> = $mk;
+                let ca = clone_leaf(&a);
+                let y = <Yaml as LoadableYamlNode>::from_bare_yaml(a);
+                assert!(same_leaf(&y, &ca), "Yaml::from_bare_yaml changed leaf data");
+                core::mem::forget(y);
+            }
+            #[kani::proof]
+            #[kani::unwind(12)]
+            fn $nm() {
+                let a: Yaml<'static> = $mk;
+                let ca = clone_leaf(&a);
+                let m = <MarkedYaml as LoadableYamlNode>::from_bare_yaml(a);
+                let ok_m = match (&m.data, &ca) {
+                    (YamlData::Value(Scalar::Null), Yaml::Value(Scalar::Null)) => true,
+                    (YamlData::Value(Scalar::Boolean(x)), Yaml::Value(Scalar::Boolean(y))) => x == y,
+                    (YamlData::Value(Scalar::Integer(x)), Yaml::Value(Scalar::Integer(y))) => x == y,
+                    (YamlData::Value(Scalar::String(x)), Yaml::Value(Scalar::String(y))) => x.as_bytes() == y.as_bytes(),
+                    (YamlData::Alias(x), Yaml::Alias(y)) => x == y,
+                    (YamlData::BadValue, Yaml::BadValue) => true,
+                    _ => false,
+                };
+                assert!(ok_m, "MarkedYaml::from_bare_yaml changed leaf data");
+                core::mem::forget(m);
+            }
+            #[kani::proof]
+            #[kani::unwind(12)]
+            fn $no() {
+                let a: Yaml<'static> = $mk;
+                let ca = clone_leaf(&a);
+                let o = <YamlOwned as LoadableYamlNode>::from_bare_yaml(a);
+                let ok_o = match (&o, &ca) {
+                    (YamlOwned::Value(ScalarOwned::Null), Yaml::Value(Scalar::Null)) => true,
+                    (YamlOwned::Value(ScalarOwned::Boolean(x)), Yaml::Value(Scalar::Boolean(y))) => x == y,
+                    (YamlOwned::Value(ScalarOwned::Integer(x)), Yaml::Value(Scalar::Integer(y))) => x == y,
+                    (YamlOwned::Value(ScalarOwned::String(x)), Yaml::Value(Scalar::String(y))) => x.as_bytes() == y.as_bytes(),
+                    (YamlOwned::Alias(x), Yaml::Alias(y)) => x == y,
+                    (YamlOwned::BadValue, Yaml::BadValue) => true,
+                    _ => false,
+                };
+                assert!(ok_o, "YamlOwned::from_bare_yaml changed leaf data");
+                core::mem::forget(o);
+            }
         };
-        assert!(ok_m, "MarkedYaml::from_bare_yaml changed leaf data");
     }
-    #[kani::proof]
-    #[kani::unwind(20)]
-    fn c19_from_bare_yaml_keeps_leaf_data_owned() {
-        let a = any_resolved_leaf();
-        let ca = clone_leaf(&a);
-        let o = <YamlOwned as LoadableYamlNode>::from_bare_yaml(a);
-        let ok_o = match (&o, &ca) {
-            (YamlOwned::Value(ScalarOwned::Null), Yaml::Value(Scalar::Null)) => true,
-            (YamlOwned::Value(ScalarOwned::Boolean(x)), Yaml::Value(Scalar::Boolean(y))) => x == y,
-            (YamlOwned::Value(ScalarOwned::Integer(x)), Yaml::Value(Scalar::Integer(y))) => x == y,
-            (YamlOwned::Value(ScalarOwned::String(x)), Yaml::Value(Scalar::String(y))) => x.as_bytes() == y.as_bytes(),
-            (YamlOwned::Alias(x), Yaml::Alias(y)) => x == y,
-            (YamlOwned::BadValue, Yaml::BadValue) => true,
-            _ => false,
-        };
-        assert!(ok_o, "YamlOwned::from_bare_yaml changed leaf data");
-    }
+    from_bare!(c19_from_bare_yaml_int, c19_from_bare_marked_int, c19_from_bare_owned_int, Yaml::Value(Scalar::Integer(kani::any())));
+    from_bare!(c19_from_bare_yaml_bool, c19_from_bare_marked_bool, c19_from_bare_owned_bool, Yaml::Value(Scalar::Boolean(kani::any())));
+    from_bare!(c19_from_bare_yaml_str, c19_from_bare_marked_str, c19_from_bare_owned_str, Yaml::Value(Scalar::String(Cow::Borrowed("ab"))));
+    from_bare!(c19_from_bare_yaml_alias, c19_from_bare_marked_alias, c19_from_bare_owned_alias, Yaml::Alias(kani::any()));
+    from_bare!(c19_from_bare_yaml_bad, c19_from_bare_marked_bad, c19_from_bare_owned_bad, Yaml::BadValue);
 
     // equality and hashing of marked nodes ignore the span
     struct Rec {
